@@ -534,7 +534,7 @@ func (s *c19S) topUp() {
 	}
 }
 
-const c19TagBlockGas = "kf-C19-rejected-consumes-block-gas"
+const c19TagBlockGas = "regress-C19-rejected-consumes-block-gas"
 
 var c19Dec = sdk.MustNewDecFromStr
 
@@ -587,8 +587,9 @@ func (s *c19S) oneCase(c int) error {
 	}
 	directed := c == 0
 	if directed {
-		// directed scenario of finding F2: a transaction refused for "balance below the fee" still consumes block gas,
-		// and an unrelated transaction that exactly fits the block is pushed over the limit
+		// regression scenario of finding F2 (fixed 07834a8): a transaction refused for "balance below the fee" must not
+		// consume block gas; before the fix it did, and the unrelated transaction that exactly fits the block was pushed
+		// over the limit and charged its whole gas limit
 		noBase, base, mgp, mult, blim = false, big.NewInt(1_000_000_000), sdk.ZeroDec(), sdk.OneDec(), 100_000
 	}
 	s.setFeeMarket(noBase, base, mgp, mult)
@@ -689,7 +690,7 @@ func (s *c19S) oneCase(c int) error {
 		}
 		cs.Txs = append(cs.Txs, rec)
 		if rec.FeeAboveBalance && !tagged {
-			// input shape of finding F2 (narrow known-finding match: suite + check "blockgas" + this tag)
+			// input shape of the repaired finding F2 (fee above balance): regression scenario
 			tagged = true
 			cs.Tags = append(cs.Tags, c19TagBlockGas)
 			s.w.Count("shape=fee-above-balance")
